@@ -32,6 +32,9 @@ def lay_out(root, tree):
         fp = os.path.join(root, *NAMES[p].split("/"))
         if n["k"] == "d":
             os.makedirs(fp, exist_ok=True)
+        elif n["k"] == "f" and n["c"] == "dangling":
+            os.makedirs(os.path.dirname(fp), exist_ok=True)
+            os.symlink(os.path.join(root, "..", "cache", "00", "gone"), fp)  # a link whose cache object is gone
         elif n["k"] == "f":
             os.makedirs(os.path.dirname(fp), exist_ok=True)
             with open(fp, "wb") as fh:
@@ -179,6 +182,19 @@ def make_cases(trees, rng, n, exhaustive=False):
         avail = need if i % 5 else rng.sample(["c1", "c2"], rng.randrange(0, 3))
         cases.append({"id": i, "ws": w, "tgt": t, "avail": sorted(avail), "delete": i % 4 != 3, "hashed": i % 3 != 2,
                       "cls": ["local", "generic"][i % 2], "link": ["copy", "hardlink", "symlink"][i % 3] if i % 7 == 0 else "copy"})
+    # prior workspaces holding dangling symbolic links (links whose cache object is gone)
+    base = len(cases)
+    for j in range(max(200, n // 6)):
+        w, t = rng.choice([x for x in trees if any(nd["k"] == "f" for nd in x.values())]), rng.choice(trees)
+        w = {p: dict(nd) for p, nd in w.items()}
+        files = sorted(p for p, nd in w.items() if nd["k"] == "f")
+        for p in files[: 1 + j % 2]:
+            w[p] = {"k": "f", "c": "dangling", "x": False}
+        need = sorted({nd["c"] for nd in t.values() if nd["k"] == "f"})
+        # the old index is the plain build(): md5() drops entries it cannot hash, and an index that does not describe the
+        # workspace is not what C09 quantifies over
+        cases.append({"id": base + j, "ws": w, "tgt": t, "avail": need, "delete": j % 4 != 3, "hashed": False,
+                      "cls": ["local", "generic"][j % 2], "link": ["copy", "hardlink", "symlink"][j % 3]})
     return cases
 
 
